@@ -141,6 +141,83 @@ fn render_equal(want: &str, got: &str) -> bool {
     norm(want) == norm(got)
 }
 
+/// Compare every interpreted field of `tree` with the expectation; `suffix` is appended to the class.
+fn compare_items(col: &mut Collector, exp: &Expectation, tree: &Node, bytes: &[u8], suffix: &str) {
+    let class = format!("{}{}", exp.class, suffix);
+    let mut failed_names: Vec<String> = Vec::new();
+    for it in &exp.items {
+        let Some(node) = tree.get(&it.path) else {
+            if !failed_names.iter().any(|p| it.path.starts_with(p.as_str())) {
+                col.inconclusive(format!("observation path missing: {} ({})", it.path, exp.class));
+            }
+            continue;
+        };
+        let (okv, got) = match &it.want {
+            Want::Text(t) => (node.text == *t, node.text.clone()),
+            Want::Name(n) => (node.name == *n, node.name.clone()),
+            Want::F32(v) => match node.text.parse::<f32>() {
+                Ok(gv) => (ulps_f32(gv, *v) <= 2, node.text.clone()),
+                Err(_) => (false, node.text.clone()),
+            },
+            Want::Ident(chars) => match node.as_str() {
+                Some(s) => (ident_accepts(chars, &s), s),
+                None => (false, node.text.clone()),
+            },
+            Want::AltOpt(a) => {
+                let t = node.text.as_str();
+                let okv = match a {
+                    None => t == "None" || t == "Some(0)",
+                    Some(v) => t == format!("Some({v})"),
+                };
+                (okv, node.text.clone())
+            }
+        };
+        col.count("field_comparisons", 1);
+        if !okv {
+            if matches!(it.want, Want::Name(_)) {
+                failed_names.push(it.path.clone());
+            }
+            col.add(finding(it.prop, it.clause, &class, format!("{} = {} but frame bits {}..={} say {:?}{}", it.path, got, it.bits.0, it.bits.1, it.want, if suffix.is_empty() { "" } else { " (frame decoded with from_reader from the middle of a stream)" }), bytes));
+        }
+    }
+}
+
+/// Every 8th accepted frame is also decoded with `Frame::from_reader` as the n-th frame of a
+/// stream (reader positioned behind a random prefix, more data behind the frame): what the
+/// properties say about an accepted frame holds however the bytes reached the decoder.
+fn via_reader(col: &mut Collector, exp: &Expectation, ok: &OkObs, bytes: &[u8]) {
+    let h = crate::collect::fnv(bytes);
+    if h % 8 != 0 {
+        return;
+    }
+    let plen = 1 + (h >> 8) as usize % 29;
+    let mut stream: Vec<u8> = (0..plen).map(|i| (h >> (i % 7)) as u8 ^ 0xA5).collect();
+    stream.extend_from_slice(bytes);
+    if (h >> 40) & 1 == 1 {
+        stream.extend_from_slice(&[0x8D, 0x48, 0x40, 0xD6]);
+    }
+    let mut cur = std::io::Cursor::new(&stream[..]);
+    cur.set_position(plen as u64);
+    col.count("frames_also_decoded_via_reader", 1);
+    match mon::guarded(|| Frame::from_reader(&mut cur)) {
+        Ok(Ok(f)) => {
+            let d = format!("{f:?}");
+            if d != ok.debug {
+                if let Ok(tree) = dbg::parse(&d) {
+                    compare_items(col, exp, &tree, bytes, "/via_reader");
+                }
+                // whatever the reference does not pin must still not depend on the transport
+                col.add(finding("C19", "reader_differs_from_slice", "start_offset", format!("from_reader at stream offset {plen}: {d}; from_bytes: {}", ok.debug), bytes));
+            }
+        }
+        Ok(Err(e)) => {
+            // trailing bytes present or not, a frame accepted from a slice is accepted from a reader
+            col.add(finding("C02", "rejects_valid", &format!("{}/via_reader", exp.class), format!("from_reader at stream offset {plen} returned Err({e:?}) for a frame from_bytes accepts"), bytes));
+        }
+        Err((loc, msg)) => col.add(finding("C01", "panic_from_reader", &loc, msg, bytes)),
+    }
+}
+
 /// Judge one byte string. Returns the expectation and observation for callers
 /// that run further differential checks.
 pub fn judge(g: &Gillham, col: &mut Collector, bytes: &[u8]) -> (Expectation, Obs) {
@@ -189,48 +266,8 @@ pub fn judge(g: &Gillham, col: &mut Collector, bytes: &[u8]) -> (Expectation, Ob
                 col.inconclusive("debug output of a frame could not be parsed");
                 return (exp, obs);
             };
-            let mut failed_names: Vec<String> = Vec::new();
-            for it in &exp.items {
-                let Some(node) = tree.get(&it.path) else {
-                    if !failed_names.iter().any(|p| it.path.starts_with(p.as_str())) {
-                        col.inconclusive(format!("observation path missing: {} ({})", it.path, exp.class));
-                    }
-                    continue;
-                };
-                let (okv, got) = match &it.want {
-                    Want::Text(t) => (node.text == *t, node.text.clone()),
-                    Want::Name(n) => (node.name == *n, node.name.clone()),
-                    Want::F32(v) => match node.text.parse::<f32>() {
-                        Ok(gv) => (ulps_f32(gv, *v) <= 2, node.text.clone()),
-                        Err(_) => (false, node.text.clone()),
-                    },
-                    Want::Ident(chars) => match node.as_str() {
-                        Some(s) => (ident_accepts(chars, &s), s),
-                        None => (false, node.text.clone()),
-                    },
-                    Want::AltOpt(a) => {
-                        let t = node.text.as_str();
-                        let okv = match a {
-                            None => t == "None" || t == "Some(0)",
-                            Some(v) => t == format!("Some({v})"),
-                        };
-                        (okv, node.text.clone())
-                    }
-                };
-                col.count("field_comparisons", 1);
-                if !okv {
-                    if matches!(it.want, Want::Name(_)) {
-                        failed_names.push(it.path.clone());
-                    }
-                    col.add(finding(
-                        it.prop,
-                        it.clause,
-                        &exp.class,
-                        format!("{} = {} but frame bits {}..={} say {:?}", it.path, got, it.bits.0, it.bits.1, it.want),
-                        bytes,
-                    ));
-                }
-            }
+            compare_items(col, &exp, tree, bytes, "");
+            via_reader(col, &exp, ok, bytes);
             // C07: derived velocity
             if let Some(calc) = &ok.calc {
                 let st = me(bytes, 6, 8);
